@@ -135,6 +135,9 @@ def run_shard(binary, prop, tier, seed, shard, nshards, scale, variant, workdir,
             results.append(json.load(open(out)))
             crashes.append(dict(key=sanitizer_key(stderr) or "san:LeakSanitizer:?", idx=-1, desc="at process exit", detail=stderr[-3000:], variant=variant))
             break
+        # the segment died before writing its result file: recover the violations it had already reported
+        for m in re.finditer(r"^VIOLATION-DETAIL key=(\S+) case=(-?\d+): ([^\n]*)$", stderr, re.M):
+            crashes.append(dict(key=m.group(1), idx=int(m.group(2)), desc=m.group(3)[:300], detail=m.group(3), variant=variant, recovered=True))
         if timed_out and hung_at != idx and idx >= 0:
             # a watchdog expiry is inconclusive: re-run that case once before reporting a hang
             hung_at = idx
